@@ -279,6 +279,22 @@ def check_C10(tier):
                                          'tolerances: |p| 1e-12 relative, dot products 1e-9 relative, cone membership 1e-7 rad'], min_eval=10000)
 
 
+def check_C11(tier):
+    t0 = time.time()
+    b = compile_bin('readercheck', ['checks/readercheck.cc'], 'fast', libs=['-lrapidcheck'])
+    cases = '6000' if tier == 'thorough' else '500'
+    wd = os.path.join(BUILD, 'run', 'c11tmp')
+    os.makedirs(wd, exist_ok=True)
+    agg = Agg('C11')
+    agg.add(run_native(b, ['--seed', str(seed()), '--cases', cases, '--workdir', wd, '--known', known_tsv('C11')], NCPU, 'C11'))
+    rule = ('rapidcheck-generated cases (whole-case shrinking): event stream of 0-40 events (catalogue and odd labels, 0-12 particles, values: exact decimals, 17-digit, tiny/huge, +-0, '
+            '15-digit-rounding straddlers) written exactly as bxdecay0-run writes them, cut into 1-7 files with empty / whitespace-only files at any position, (start,max) incl. 0, the end and '
+            'beyond, optional zero_event_time, and a random interleaving of has_next_event/load_next_event followed by a drain; oracle: list model (exactly stream[start:start+max] in order), '
+            'textual identity of the re-stored event at 15 digits, has_next true => load succeeds, empty window => has_next false, loaded counter; '
+            'non-trivial & distinct = (partition shape, window class, stream size) with >=2 non-empty files and a window boundary strictly inside a file')
+    return verdict(agg, tier, t0, rule, ['NaN/inf values and empty generator labels are outside the documented format and are not generated', 'loading when no window event remains is not specified and not attempted'], min_eval=1000)
+
+
 def check_C08(tier):
     """sanitizer builds (ASan+UBSan+_GLIBCXX_ASSERTIONS) of the generation drivers + structure-aware libFuzzer target"""
     t0 = time.time()
@@ -317,6 +333,9 @@ def replay(prop, path):
         b = compile_bin(nm, [src], 'fast', libs=['-lrapidcheck', '-rdynamic'] if prop == 'C09' else ['-lrapidcheck'])
         r = subprocess.run([b, '--replay', path], env=run_env())
         return r.returncode
+    if prop == 'C11':
+        b = compile_bin('readercheck', ['checks/readercheck.cc'], 'fast', libs=['-lrapidcheck'])
+        return subprocess.run([b, '--replay', path, '--workdir', os.path.join(BUILD, 'run')], env=run_env()).returncode
     if prop == 'C10':
         b = compile_bin('mdlcheck', ['checks/mdlcheck.cc'], 'fast')
         return subprocess.run([b, '--replay', path], env=run_env()).returncode
